@@ -27,7 +27,10 @@ INITIAL_MISSED = {"C01-m1", "C03-m2", "C04-m1", "C05-m1", "C08-m1", "C09-m1", "C
                   # eighth round
                   "C01-r8m3", "C02-r8m1", "C02-r8m3", "C03-r8m2", "C04-r8m3", "C06-r8m2", "C06-r8m3", "C07-r8m2", "C08-r8m2",
                   "C09-r8m1", "C10-r8m1", "C10-r8m2", "C12-r8m1", "C12-r8m2", "C13-r8m1", "C13-r8m3", "C14-r8m2", "C15-r8m1",
-                  "C16-r8m2", "C16-r8m3", "C18-r8m3", "C19-r8m1", "C19-r8m3", "C20-r8m1", "C20-r8m2", "C20-r8m3"}
+                  "C16-r8m2", "C16-r8m3", "C18-r8m3", "C19-r8m1", "C19-r8m3", "C20-r8m1", "C20-r8m2", "C20-r8m3",
+                  # ninth round (refactorings gone slightly wrong)
+                  "C03-r9m1", "C03-r9m3", "C04-r9m1", "C04-r9m3", "C05-r9m2", "C06-r9m2", "C08-r9m2", "C10-r9m1", "C15-r9m1",
+                  "C20-r9m1"}
 # --seed N: run at another VERIF_SEED and only print the verdicts (meta.json untouched) - finds catches that depend on luck
 args = sys.argv[1:]
 seed = None
